@@ -42,6 +42,11 @@ What is modelled, line by line from `time.rs`:
   go to one-shot ports (the first request wins) and are acted on when the target's task next runs,
   kill before stop before messages (`Target.run`); `drain()` closes admission at once, the
   backlog is still handled, then the actor exits with reason `"Drained"`.
+* target FAILURE (`fail`, `Reason.failed`): the harness casts a message on which the handler returns `Err`
+  (`Target.poison` = its position in the mailbox). When the target's task reaches it — kill and stop
+  requests come first — the messages ahead of it have been handled, the rest of the mailbox is dropped,
+  the status becomes `Stopping` then `Stopped` WITHOUT `post_stop` (a gate does not hold it), and the
+  supervisor gets `ActorFailed`. From then on the target refuses every send like any stopped target.
 * `post_stop`: when the message loop ends by a stop or a drain the status becomes `Stopping`
   (`closedAt`) and `post_stop` runs; the actor is gone — its supervisor is told, `exit` — only when
   `post_stop` returns. The harness can gate `post_stop` (`hold` arms the gate, `psrelease` opens
@@ -67,6 +72,8 @@ inductive Res | pending | ok | err | cancelled
   deriving DecidableEq, Repr
 
 inductive Reason | manual | drained | killed | exitAfter (ms : Nat)
+  /-- the actor FAILED: its message handler returned `Err` (the supervisor gets `ActorFailed`) -/
+  | failed
   deriving DecidableEq, Repr
 
 /-- The reason string the supervisor sees. `exitAfter` is the documented
@@ -76,6 +83,7 @@ def Reason.render : Reason → String
   | .drained => "Drained"
   | .killed => "killed"
   | .exitAfter ms => "Exit after " ++ toString ms ++ "ms"
+  | .failed => "<failed> poison"
 
 structure Timer where
   kind : Kind
@@ -144,6 +152,10 @@ structure Target where
   /-- the message loop has ended (status `Stopping`) and `post_stop` is running: the exit
   reason to come and the instant the loop ended -/
   stopping : Option (Reason × Nat) := none
+  /-- harness: a message on which the handler returns `Err` is in the mailbox, behind this many messages -/
+  poison : Option Nat := none
+  /-- ghost: the harness sent such a message -/
+  manualFail : Bool := false
   deriving DecidableEq, Repr
 
 /-- `send_message` succeeds (status < Draining and admission open). -/
@@ -170,13 +182,19 @@ def Target.drain (T : Target) (now : Nat) : Target :=
   else { T with draining := true, closedAt := some (T.closedAt.getD now) }
 
 def Target.exitWith (T : Target) (r : Reason) (now : Nat) : Target :=
-  { T with exit := some (r, now), closedAt := some (T.closedAt.getD now), mbox := [], stopping := none }
+  { T with exit := some (r, now), closedAt := some (T.closedAt.getD now), mbox := [], stopping := none,
+           poison := none }
 
 /-- the message loop ends with reason `r`: status `Stopping`, the mailbox is never looked at again,
 `post_stop` starts — and returns at once unless the harness gates it -/
 def Target.endLoop (T : Target) (r : Reason) (now : Nat) : Target :=
-  if T.psGate then { T with stopping := some (r, now), closedAt := some (T.closedAt.getD now), mbox := [] }
+  if T.psGate then { T with stopping := some (r, now), closedAt := some (T.closedAt.getD now), mbox := [],
+                            poison := none }
   else T.exitWith r now
+
+/-- harness: `cast` of a message the handler fails on (accepted like any message) -/
+def Target.poisonMsg (T : Target) : Target :=
+  if T.accepts && T.poison.isNone then { T with poison := some T.mbox.length, manualFail := true } else T
 
 /-- The target's task runs until idle: kill > stop > messages (> drain marker); inside a gated
 `post_stop` only a kill is looked at. -/
@@ -187,8 +205,14 @@ def Target.run (T : Target) (now : Nat) : Target :=
   else match T.stopReq with
     | some r => T.endLoop r now
     | none =>
-      let T' := { T with handled := T.handled ++ T.mbox.map (fun m => (m.1, m.2, now)), mbox := [] }
-      if T.draining then T'.endLoop .drained now else T'
+      match T.poison with
+      | some n =>
+        -- the handler returns `Err` on the poison message: what was ahead of it has been handled, the
+        -- rest is dropped, `post_stop` is NOT run, the supervisor gets `ActorFailed`
+        ({ T with handled := T.handled ++ (T.mbox.take n).map (fun (m : Nat × Nat) => (m.1, m.2, now)), mbox := [] }).exitWith .failed now
+      | none =>
+        let T' := { T with handled := T.handled ++ T.mbox.map (fun m => (m.1, m.2, now)), mbox := [] }
+        if T.draining then T'.endLoop .drained now else T'
 
 /-- harness: `post_stop` may return; if the target sits in it, the actor exits now -/
 def Target.release (T : Target) (now : Nat) : Target :=
@@ -278,6 +302,8 @@ inductive Op
   | hold | psrelease
   /-- the `JoinHandle` of timer `i` is dropped -/
   | dropHandle (i : Nat)
+  /-- harness: a message on which the target's handler fails is cast to the target -/
+  | fail
   deriving DecidableEq, Repr
 
 def step (s : State) : Op → State
@@ -303,6 +329,7 @@ def step (s : State) : Op → State
   | .hold => { s with target := { s.target with psGate := true } }
   | .psrelease => { s with target := s.target.release s.now }
   | .dropHandle i => { s with dropped := s.dropped ++ [i] }
+  | .fail => { s with target := s.target.poisonMsg }
 
 /-- everything but the ownership of the handles: clock, target, timers, quiescent points -/
 def State.seen (s : State) : State := { s with dropped := [] }
@@ -330,6 +357,8 @@ inductive MOp
   time driver runs) -/
   | dropHandle (i : Nat)
   | advDrop (d i : Nat)
+  | fail
+  | advFail (d : Nat)
   deriving DecidableEq, Repr
 
 def fireAll (n : Nat) : List Op := (List.range n).map Op.fire
@@ -353,6 +382,8 @@ def expand (s : State) : MOp → List Op
   | .psrelease => [.psrelease, .target, .mark]
   | .dropHandle i => [.dropHandle i, .mark]
   | .advDrop d i => [.tick d, .dropHandle i] ++ fireAll s.timers.length ++ [.target, .mark]
+  | .fail => [.fail, .target, .mark]
+  | .advFail d => [.tick d, .fail, .target] ++ fireAll s.timers.length ++ [.target, .mark]
 
 def mstep (s : State) (m : MOp) : State := steps s (expand s m)
 def mrun (s : State) (ms : List MOp) : State := ms.foldl mstep s
@@ -435,6 +466,7 @@ def reasonOk (s : State) (r : Reason) (te : Nat) : Bool :=
   match r with
   | .manual => s.target.manualStop
   | .drained => true
+  | .failed => true
   | .killed => s.target.manualKill ||
       s.timers.any (fun τ => τ.kind == .killAfter && τ.sentAt.any (fun t => decide (t ≤ te)))
   | .exitAfter ms =>
